@@ -69,12 +69,18 @@ def get_facts(config='std', repo=None, quiet=True):
     """returns (path to facts json, info dict)"""
     repo = repo or REPO
     os.makedirs(WORK, exist_ok=True)
-    lock = open(os.path.join(WORK, '.extract.lock'), 'w')
-    fcntl.flock(lock, fcntl.LOCK_EX)
+    tag = hashlib.sha256(os.path.abspath(repo).encode()).hexdigest()[:6]
+    glock = open(os.path.join(WORK, '.driver.lock'), 'w')
+    fcntl.flock(glock, fcntl.LOCK_EX)
     try:
         ensure_driver()
+    finally:
+        fcntl.flock(glock, fcntl.LOCK_UN)
+        glock.close()
+    lock = open(os.path.join(WORK, '.extract-%s-%s.lock' % (config, tag)), 'w')
+    fcntl.flock(lock, fcntl.LOCK_EX)
+    try:
         h = tree_hash(repo)
-        tag = hashlib.sha256(os.path.abspath(repo).encode()).hexdigest()[:6]
         out = os.path.join(WORK, 'facts-%s-%s-%s.json' % (config, tag, h))
         info = {'config': config, 'tree_hash': h, 'cached': True, 'extract_s': 0.0}
         if os.path.exists(out) and os.path.getsize(out) > 1000:
